@@ -151,7 +151,7 @@ FAULTS = {
 }
 
 # ---- TLAPS: unbounded theorems about the specification (module names in spec/)
-PROOFS = {"C18": ["SettingsProof"], "C03": ["LimitsProof"]}
+PROOFS = {"C18": ["SettingsProof"], "C03": ["LimitsProof"], "C05": ["PromotionProof"]}
 
 RULES = {
     "default": "cases = recorded steps of the real reconcilers (scenario corpus + seeded random walks over the action vocabulary, each followed by a convergence tail; state vectors enumerated by TLC and materialised as real objects, one real reconcile each); a case is non-trivial when the antecedent of one of the property's step formulas held on it; distinct = distinct NT tuples printed by TLC (formula clause + the abstract quantities it decided on)",
